@@ -142,7 +142,7 @@ func c09Histories(nm int) [][]ROp {
 }
 
 // Init builds the enumeration: every (workload, call index, fault kind).
-func (p *c09) Init(t *testing.T) {
+func (p *c09) Init(t *testing.T, seed uint64, tier string) {
 	if p.combos != nil {
 		return
 	}
